@@ -7,7 +7,11 @@ from ._dlpoly_writeTABEAM import writeTABEAM, writeTABEAMFinnisSinclair
 def _rho_value_iterator(tabulation):
   #for n in range(tabulation.nr+1):
   for n in range(tabulation.nrho):
-    yield float(n)* tabulation.cutoff_rho / (float(tabulation.nrho) -1)
+    if n == tabulation.nrho - 1 and n > 0:
+      # the last point is cutoff_rho itself: (nrho-1)*cutoff_rho/(nrho-1) can round to a value beyond it
+      yield float(tabulation.cutoff_rho)
+    else:
+      yield float(n)* tabulation.cutoff_rho / (float(tabulation.nrho) -1)
 
 
 class _EAMTabulationAbstractbase(PairTabulation_AbstractBase):
